@@ -41,8 +41,8 @@ CHECKS = {
     "C16": {"pkg": "cmd/benchstat"},
     "C17": {"pkg": "benchstat"},
     "C18": {"pkg": "benchseries"},
-    "C19": {"pkg": "storage/app"},
-    "C20": {"pkg": "storage/app"},
+    "C19": {"pkg": "storage/app", "pkgs": ["storage/app", "analysis/app"]},
+    "C20": {"pkg": "storage/app", "pkgs": ["storage/app", "storage/db"]},
 }
 
 
@@ -52,8 +52,10 @@ def goenv():
     return env
 
 
-def overlay_for(cid, extra=None):
-    cfg = CHECKS[cid]
+def overlay_for(cid, extra=None, pkg=None):
+    cfg = dict(CHECKS[cid])
+    if pkg:
+        cfg["pkg"] = pkg
     repl = {}
     for f in sorted(glob.glob(os.path.join(VERIF, "mc", "*.go"))):
         repl[os.path.join(REPO, "internal/verifmc", os.path.basename(f))] = f
@@ -74,13 +76,15 @@ def overlay_for(cid, extra=None):
     return repl
 
 
-def build(cid, race=False, extra_overlay=None, suffix=""):
-    cfg = CHECKS[cid]
+def build(cid, race=False, extra_overlay=None, suffix="", pkg=None):
+    cfg = dict(CHECKS[cid])
+    if pkg:
+        cfg["pkg"] = pkg
     bdir = os.path.join(VERIF, ".build")
     os.makedirs(bdir, exist_ok=True)
     ov = os.path.join(bdir, f"{cid}{suffix}.overlay.json")
     with open(ov, "w") as fh:
-        json.dump({"Replace": overlay_for(cid, extra_overlay)}, fh, indent=1)
+        json.dump({"Replace": overlay_for(cid, extra_overlay, pkg)}, fh, indent=1)
     out = os.path.join(bdir, f"{cid}{suffix}.test")
     cmd = ["go", "test", "-c", "-overlay", ov, "-tags", "verif", "-vet=off", "-o", out]
     if race:
@@ -114,6 +118,8 @@ def run_check(cid, tier, replay=None):
     custom = prehooks(cid, tier)
     if custom is not None:
         return custom(replay)
+    if CHECKS[cid].get("pkgs"):
+        return run_multi(cid, tier, replay, t0)
     binp, bt = build(cid)
     env = goenv()
     env["VERIF_TIER"] = tier
@@ -125,6 +131,101 @@ def run_check(cid, tier, replay=None):
     if replay:
         env["VERIF_REPLAY"] = os.path.abspath(replay)
     return run_binary(cid, binp, env, t0, bt)
+
+
+def run_multi(cid, tier, replay, t0):
+    """A check whose harness lives in several packages: one test binary per package, evidence merged."""
+    scratch = os.path.join(VERIF, ".scratch", cid)
+    os.makedirs(scratch, exist_ok=True)
+    for f in glob.glob(os.path.join(scratch, "part-*.json")):
+        os.remove(f)
+    rcs = []
+    for i, pkg in enumerate(CHECKS[cid]["pkgs"]):
+        binp, bt = build(cid, suffix=f"-{i}", pkg=pkg)
+        env = goenv()
+        env.update({"VERIF_TIER": tier, "VERIF_ROOT": VERIF, "VERIF_KNOWN": os.path.join(VERIF, "known_findings.json"),
+                    "VERIF_EVIDENCE": os.path.join(scratch, f"part-{i}.json"), "VERIF_REPO": REPO, "VERIF_PART": str(i)})
+        env.setdefault("VERIF_SEED", "0")
+        if replay:
+            env["VERIF_REPLAY"] = os.path.abspath(replay)
+        rc = run_binary(cid, binp, env, t0, bt)
+        if replay:
+            # the replay file names its family; only the package that registers it answers
+            if rc != 2:
+                return rc
+            continue
+        rcs.append(rc)
+    if replay:
+        return 2
+    merge_parts(cid, tier, scratch, time.time() - t0)
+    if any(rc == 1 for rc in rcs):
+        return 1
+    if all(rc == 0 for rc in rcs):
+        return 0
+    return 2
+
+
+def merge_parts(cid, tier, scratch, wall, refusal=None, exhaustive_family=None):
+    parts = sorted(glob.glob(os.path.join(scratch, "part-*.json")))
+    if not parts:
+        return
+    evs = [json.load(open(p)) for p in parts]
+    cov = {"evaluations": 0, "distinct_nontrivial": 0, "states": 0, "transitions": 0, "families": {}, "samples": [], "exhaustive": True}
+    rules = []
+    viol = 0
+    known = set()
+    assumptions = []
+    for ev in evs:
+        c = ev["coverage"]
+        viol += ev.get("violations", 0)
+        for a in ev.get("assumptions", []):
+            if a not in assumptions:
+                assumptions.append(a)
+        for k in ("evaluations", "distinct_nontrivial", "states", "transitions"):
+            cov[k] += c.get(k, 0)
+        cov["exhaustive"] = cov["exhaustive"] and c.get("exhaustive", True)
+        for name, fam in c.get("families", {}).items():
+            m = cov["families"].get(name)
+            if m is None:
+                cov["families"][name] = dict(fam)
+                rules.append(name + ": " + fam.get("rule", ""))
+                continue
+            for k in ("evaluations", "distinct_nontrivial", "states", "transitions"):
+                if k in fam:
+                    m[k] = m.get(k, 0) + fam[k]
+            m["exhaustive"] = m.get("exhaustive", True) and fam.get("exhaustive", True)
+            if "outcomes" in fam:
+                o = m.setdefault("outcomes", {})
+                for kk, vv in fam["outcomes"].items():
+                    o[kk] = o.get(kk, 0) + vv
+            for k in ("max_depth", "max_decisions_per_execution", "distinct_goroutine_completion_orders"):
+                if k in fam:
+                    m[k] = max(m.get(k, 0), fam[k])
+            m["wall_s"] = max(m.get("wall_s", 0), fam.get("wall_s", 0))
+        cov["samples"] = (cov["samples"] + c.get("samples", []))[:8]
+        for k in c.get("known_findings_hit", []):
+            known.add(k)
+    if exhaustive_family:
+        fam = cov["families"].get(exhaustive_family)
+        cov["exhaustive"] = bool(fam and fam.get("exhaustive")) and refusal is None
+    for fam in cov["families"].values():
+        fam["distinct_outcomes"] = len(fam.get("outcomes", {}))
+    cov["rule"] = " || ".join(sorted(rules))
+    cov["traces_validated_against_impl"] = cov["transitions"]
+    cov["processes"] = len(parts)
+    if refusal:
+        cov["uninstrumentable"] = refusal
+        cov["explanation"] = "controlled exploration skipped: " + refusal
+    if cov["states"] == 0:
+        del cov["states"], cov["transitions"], cov["traces_validated_against_impl"]
+    if known:
+        cov["known_findings_hit"] = sorted(known)
+    out = {"property_id": cid, "tier": tier, "seed": int(os.environ.get("VERIF_SEED", "0") or 0), "level": "model_checking",
+           "coverage": cov, "assumptions": assumptions, "wall_s": round(wall, 3), "violations": viol}
+    os.makedirs(os.path.join(VERIF, "evidence"), exist_ok=True)
+    with open(os.path.join(VERIF, "evidence", cid + ".json"), "w") as fh:
+        json.dump(out, fh, indent=1)
+        fh.write("\n")
 
 
 def run_binary(cid, binp, env, t0, bt, args=None):
@@ -160,7 +261,13 @@ def main():
             hdir = os.path.join(VERIF, "harness", CHECKS[cid]["pkg"].replace("/", "__"))
             if not glob.glob(os.path.join(hdir, cid.lower() + "_*.go")):
                 continue
-            _, bt = build(cid)
+            if CHECKS[cid].get("pkgs"):
+                bt = 0
+                for i, pkg in enumerate(CHECKS[cid]["pkgs"]):
+                    _, b1 = build(cid, suffix=f"-{i}", pkg=pkg)
+                    bt += b1
+            else:
+                _, bt = build(cid)
             print(f"built {cid} in {bt:.1f}s")
         sys.exit(rc)
     if len(sys.argv) < 3:
